@@ -203,4 +203,73 @@ theorem updateParam_eq (mem : Nat → α) (ofs sz : Nat) (values : Nat → α) :
       · have : ¬ (ofs ≤ s ∧ s < ofs + (n + 1)) := by omega
         simp [h1, h2, this]
 
+/-! ### the repaired `dependency_analysis` rule establishes the independence hypothesis -/
+
+/-- a variable that is neither sourced from the updated field nor a descendant of an
+updatable-sourced variable evaluates to the same value whatever the updated field holds -/
+theorem evalVar_independent (deps : Nat → List Nat) (srcOf : Nat → Option (Nat × Nat))
+    (op : Nat → List (Nat → α) → Nat → α) (isUpd : Nat → Bool)
+    (inp : Nat × Nat → Nat → α) (f : Nat) (newf : Nat → Nat → α)
+    (hflag : ∀ v d, srcOf v = some (f, d) → isUpd v = true) :
+    ∀ (fuel v : Nat), isUpd v = false → descOfUpd deps isUpd fuel v = false →
+      evalVar deps srcOf op (override inp f newf) fuel v = evalVar deps srcOf op inp fuel v := by
+  have hsrc : ∀ v g d, srcOf v = some (g, d) → isUpd v = false → override inp f newf (g, d) = inp (g, d) := by
+    intro v g d hs hu
+    unfold override
+    by_cases hg : g = f
+    · subst hg
+      rw [hflag v d hs] at hu
+      exact absurd hu (by simp)
+    · simp [hg]
+  intro fuel
+  induction fuel with
+  | zero =>
+    intro v hu _
+    unfold evalVar
+    cases hs : srcOf v with
+    | none => rfl
+    | some gd => obtain ⟨g, d⟩ := gd; exact hsrc v g d hs hu
+  | succ fuel ih =>
+    intro v hu hdesc
+    unfold evalVar
+    cases hs : srcOf v with
+    | some gd => obtain ⟨g, d⟩ := gd; exact hsrc v g d hs hu
+    | none =>
+      simp only
+      congr 1
+      apply List.map_congr_left
+      intro w hw
+      have hany : (deps v).any (fun w => isUpd w || descOfUpd deps isUpd fuel w) = false := hdesc
+      rw [List.any_eq_false] at hany
+      have := hany w hw
+      simp only [Bool.or_eq_true, not_or, Bool.not_eq_true] at this
+      exact ih w this.1 this.2
+
+/-- **update_equiv with the hypothesis discharged by the code** (commit 5ff56ef): if the precomputed
+globals are exactly variables selected by the repaired rule `precompRule true …` (not descendants of
+an updatable-sourced variable), then for every updatable field `f` (all variables sourced from it
+are flagged `isUpd`) `update(f=…)` equals constructing afresh — no independence hypothesis left. -/
+theorem update_eq_fresh_repaired (info : List (GVar × Nat × Nat)) (hd : DisjointRanges info)
+    (f : Nat) (inp : Nat × Nat → Nat → α) (newf : Nat → Nat → α) (mem0 : Nat → α)
+    (deps : Nat → List Nat) (srcOf : Nat → Option (Nat × Nat)) (op : Nat → List (Nat → α) → Nat → α)
+    (isUpd basisScope : Nat → Bool) (fuel : Nat) (linearDeps : List Nat)
+    (hflag : ∀ v d, srcOf v = some (f, d) → isUpd v = true)
+    (hcomp : ∀ v, srcOf v = none → isUpd v = false)
+    (hsrc : ∀ e ∈ info, e.1.src = srcOf e.1.var.name)
+    (hpre : ∀ e ∈ info, e.1.src = none →
+      e.1.var.name ∈ precompRule true deps isUpd basisScope fuel linearDeps) :
+    update info f newf (fresh info inp (fun v i => evalVar deps srcOf op i fuel v.name) mem0)
+      = fresh info (override inp f newf) (fun v i => evalVar deps srcOf op i fuel v.name) mem0 := by
+  apply update_eq_fresh info hd f inp newf _ mem0
+  intro e he hnone
+  have hm := hpre e he hnone
+  unfold precompRule at hm
+  rw [List.mem_filter] at hm
+  have hdesc : descOfUpd deps isUpd fuel e.1.var.name = false := by
+    have := hm.2
+    simp only [Bool.true_and, Bool.and_eq_true, Bool.not_eq_true'] at this
+    exact this.2
+  have hs : srcOf e.1.var.name = none := by rw [← hsrc e he]; exact hnone
+  exact evalVar_independent deps srcOf op isUpd inp f newf hflag fuel _ (hcomp _ hs) hdesc
+
 end Pyiga.Layout
